@@ -1,6 +1,5 @@
 (* Properties_C01.v — C01 (hunk level): applying a conforming diff of A to B to A yields exactly B. *)
-From PatchV Require Import Base Lines Hunk Locator Formatter Options Applier LineParser Parser World Driver Spec_Locate Spec_Apply Proofs_Conf Proofs_EndToEnd
-     Proofs_Unified Spec_Normal Proofs_Normal Proofs_NormalConf.
+From PatchV Require Import Base Lines Hunk Locator Formatter Options Applier LineParser Parser World Driver Spec_Locate Spec_Apply Proofs_Conf Proofs_EndToEnd Proofs_Unified Spec_Normal Proofs_Normal Proofs_NormalConf Spec_Names Proofs_Filler Proofs_Names Proofs_Reverse Proofs_Sections Proofs_Sections_Unified Proofs_Whole Proofs_WholeSections Proofs_WholeGit.
 
 (* any option record without -R, -D, --verbose; any -F >= 0, with or without -l, -N, -t, -f, any newline
    mode and reject format; files of fewer than 2^63-1 lines; a patch whose old file is /dev/null (one that
@@ -193,3 +192,262 @@ Example roundtrip_nonvacuous :
   Forall wf_hunk_n [hA; hD; hC] /\ tail_ok_n ex_tail /\ emit_normal [hA; hD; hC] = ex_text /\
   parse_normal_patch (strm (ex_text ++ ex_tail)) = Ok ([hA; hD; hC], strm ex_tail).
 Proof. exact (conj ex_wf (conj ex_tail_ok (conj ex_emit ex_roundtrip))). Qed.
+
+(* ---------------------------------------------------------------------------------------------------------------
+   C01 (and C12) end to end over the whole model: from the bytes of a unified patch, as diff -u / svn diff / git diff write
+   it, to the bytes of the patched file.  Proofs in Proofs_Whole.v, Proofs_WholeSections.v, Proofs_WholeGit.v (non-vacuity
+   Examples and vm_compute runs of run_patch on the same data are there). *)
+
+(* (1) the header diff -u writes *)
+Theorem unified_header_scan : forall strip f fl oldname t1 newname t2 h1 hs tail,
+  f = FUnknown \/ f = FUnified ->
+  Forall (Filler strip (empty_patch f)) fl -> Forall clean fl ->
+  plain_name oldname -> plain_name newname -> clean (oldname ++ tab_time t1) -> clean (newname ++ tab_time t2) ->
+  Forall wf_hunk (h1 :: hs) ->
+  parse_patch_header_full (empty_patch f) strip
+    (strm (join_lines (fl ++ [bs "--- " ++ oldname ++ tab_time t1; bs "+++ " ++ newname ++ tab_time t2]) ++ emit_hunks (h1 :: hs) ++ tail)) =
+  Ok (true,
+      mkPatch FUnified (decide_oper h1 (stripped oldname strip) (stripped newname strip)) [] []
+              (stripped oldname strip) (stripped newname strip) (opt_or (time_read t1) []) (opt_or (time_read t2) []) 0 0 [],
+      strm (emit_hunks (h1 :: hs) ++ tail), true).
+Proof. exact Proofs_Whole.unified_header_scan. Qed.
+Print Assumptions unified_header_scan.
+
+(* ... with an "Index: name" line in front (svn, cvs) *)
+Theorem unified_header_scan_index : forall strip f fl ixname ixt fl2 oldname t1 newname t2 h1 hs tail,
+  f = FUnknown \/ f = FUnified ->
+  Forall (Filler strip (empty_patch f)) fl -> Forall clean fl ->
+  plain_name ixname -> clean (ixname ++ tab_time ixt) ->
+  Forall (Filler strip (set_index (empty_patch f) (stripped ixname strip))) fl2 -> Forall clean fl2 ->
+  plain_name oldname -> plain_name newname -> clean (oldname ++ tab_time t1) -> clean (newname ++ tab_time t2) ->
+  Forall wf_hunk (h1 :: hs) ->
+  parse_patch_header_full (empty_patch f) strip
+    (strm (join_lines ((fl ++ [bs "Index: " ++ ixname ++ tab_time ixt] ++ fl2) ++
+                       [bs "--- " ++ oldname ++ tab_time t1; bs "+++ " ++ newname ++ tab_time t2]) ++ emit_hunks (h1 :: hs) ++ tail)) =
+  Ok (true,
+      mkPatch FUnified (decide_oper h1 (stripped oldname strip) (stripped newname strip)) (stripped ixname strip) []
+              (stripped oldname strip) (stripped newname strip) (opt_or (time_read t1) []) (opt_or (time_read t2) []) 0 0 [],
+      strm (emit_hunks (h1 :: hs) ++ tail), true).
+Proof. exact Proofs_Whole.unified_header_scan_index. Qed.
+Print Assumptions unified_header_scan_index.
+
+(* ... and when the first hunk begins with an EMPTY line standing for an empty line of context (diff -u --suppress-blank-empty):
+   the scan takes it for the first line of the hunk as soon as both names are known (not empty after -p).  Only the scan:
+   the body-level round trip is about hunks as the formatter writes them, which never drops the leading space. *)
+Theorem unified_header_scan_blank : forall strip f fl oldname t1 newname t2 o nr more,
+  f = FUnknown \/ f = FUnified ->
+  Forall (Filler strip (empty_patch f)) fl -> Forall clean fl ->
+  plain_name oldname -> plain_name newname -> clean (oldname ++ tab_time t1) -> clean (newname ++ tab_time t2) ->
+  stripped oldname strip <> [] -> stripped newname strip <> [] ->
+  wf_range o -> wf_range nr ->
+  parse_patch_header_full (empty_patch f) strip
+    (strm (join_lines (fl ++ [bs "--- " ++ oldname ++ tab_time t1; bs "+++ " ++ newname ++ tab_time t2]) ++
+           unified_header o nr ++ 10%N :: 10%N :: more)) =
+  Ok (true,
+      mkPatch FUnified (decide_oper (mkHunk o nr []) (stripped oldname strip) (stripped newname strip)) [] []
+              (stripped oldname strip) (stripped newname strip) (opt_or (time_read t1) []) (opt_or (time_read t2) []) 0 0 [],
+      strm (unified_header o nr ++ 10%N :: 10%N :: more), true).
+Proof. exact Proofs_Whole.unified_header_scan_blank. Qed.
+Print Assumptions unified_header_scan_blank.
+
+(* the operation: Change unless a range of the first hunk starts at 0 (diff -U0) or a name is /dev/null *)
+Theorem decide_oper_change : forall h1 a b,
+  rstart (oldr h1) <> 0%Z -> rstart (newr h1) <> 0%Z -> a <> devnull_path -> b <> devnull_path -> decide_oper h1 a b = OpChange.
+Proof. exact Proofs_Whole.decide_oper_change. Qed.
+
+(* the names are those of Spec_Names.strip_spec ... *)
+Theorem stripped_spec : forall name k, name <> devnull_path -> (0 <= k)%Z -> stripped name k = strip_spec name (Z.to_nat k).
+Proof. exact Proofs_Whole.stripped_spec. Qed.
+
+(* ... in particular: -p1 on "a/f", -p0 on "f", no -p on "dir/f" *)
+Theorem stripped_p1 : forall d f, d <> [] -> ~ In 47%N d -> f <> [] -> ~ In 47%N f -> stripped (d ++ 47%N :: f) 1 = f.
+Proof. exact Proofs_Whole.stripped_p1. Qed.
+Theorem stripped_p0 : forall f, ~ In 47%N f -> stripped f 0 = f.
+Proof. exact Proofs_Whole.stripped_p0. Qed.
+Theorem stripped_basename : forall d f strip,
+  (strip < 0)%Z -> d ++ 47%N :: f <> devnull_path -> ~ In 47%N f -> stripped (d ++ 47%N :: f) strip = f.
+Proof. exact Proofs_Whole.stripped_basename. Qed.
+
+(* (2) C01 end to end.  No hypothesis on where the ranges start: a first hunk "@@ -0,0 +1 @@" or "@@ -1 +0,0 @@" (diff -U0) makes the
+   scan infer Add / Delete, and the run still writes exactly B (Proofs_Whole.top_insertion_end_to_end,
+   first_line_removal_end_to_end). *)
+Theorem patch_applies_end_to_end : forall o f0 fl oldname t1 newname t2 h1 hs tail fname A B w data mode,
+  plain_options o -> reverse_patch_opt o = false ->
+  format_from_options o = Ok f0 -> f0 = FUnknown \/ f0 = FUnified ->
+  Forall (Filler (strip_size o) (empty_patch f0)) fl -> Forall clean fl ->
+  plain_name oldname -> plain_name newname -> clean (oldname ++ tab_time t1) -> clean (newname ++ tab_time t2) ->
+  stripped oldname (strip_size o) = fname -> stripped newname (strip_size o) = fname ->
+  fname <> [] /\ ~ In 47%N fname ->
+  Forall wf_hunk (h1 :: hs) -> Conforming A B (h1 :: hs) ->
+  remove_empty_files o <> OBYes \/ lines_bytes (newline_output o) B <> [] ->
+  (Z.of_nat (length A) < MAXZ)%Z ->
+  tail_ok tail -> ends_here o f0 (after tail) = true ->
+  fault w = None -> lookup (fs w) fname = Some (Reg data mode) -> (mode < 4096)%N -> owner_r mode = true -> owner_w mode = true ->
+  split_lines data = A ->
+  exists w',
+    process_patch o (join_lines (fl ++ [bs "--- " ++ oldname ++ tab_time t1; bs "+++ " ++ newname ++ tab_time t2]) ++
+                     emit_hunks (h1 :: hs) ++ tail) w = (Ok (0, []), w') /\
+    lookup (fs w') fname = Some (Reg (lines_bytes (newline_output o) B) mode) /\
+    (forall q, q <> fname -> lookup (fs w') q = lookup (fs w) q) /\
+    fault w' = None /\ umask w' = umask w.
+Proof. exact Proofs_Whole.patch_applies_end_to_end. Qed.
+Print Assumptions patch_applies_end_to_end.
+
+Theorem patch_applies_end_to_end_index : forall o f0 fl ixname ixt fl2 oldname t1 newname t2 h1 hs tail fname A B w data mode,
+  plain_options o -> reverse_patch_opt o = false ->
+  format_from_options o = Ok f0 -> f0 = FUnknown \/ f0 = FUnified ->
+  Forall (Filler (strip_size o) (empty_patch f0)) fl -> Forall clean fl ->
+  plain_name ixname -> clean (ixname ++ tab_time ixt) ->
+  Forall (Filler (strip_size o) (set_index (empty_patch f0) (stripped ixname (strip_size o)))) fl2 -> Forall clean fl2 ->
+  plain_name oldname -> plain_name newname -> clean (oldname ++ tab_time t1) -> clean (newname ++ tab_time t2) ->
+  stripped oldname (strip_size o) = fname -> stripped newname (strip_size o) = fname ->
+  fname <> [] /\ ~ In 47%N fname ->
+  Forall wf_hunk (h1 :: hs) -> Conforming A B (h1 :: hs) ->
+  remove_empty_files o <> OBYes \/ lines_bytes (newline_output o) B <> [] ->
+  (Z.of_nat (length A) < MAXZ)%Z ->
+  tail_ok tail -> ends_here o f0 (after tail) = true ->
+  fault w = None -> lookup (fs w) fname = Some (Reg data mode) -> (mode < 4096)%N -> owner_r mode = true -> owner_w mode = true ->
+  split_lines data = A ->
+  exists w',
+    process_patch o (join_lines ((fl ++ [bs "Index: " ++ ixname ++ tab_time ixt] ++ fl2) ++
+                                 [bs "--- " ++ oldname ++ tab_time t1; bs "+++ " ++ newname ++ tab_time t2]) ++
+                     emit_hunks (h1 :: hs) ++ tail) w = (Ok (0, []), w') /\
+    lookup (fs w') fname = Some (Reg (lines_bytes (newline_output o) B) mode) /\
+    (forall q, q <> fname -> lookup (fs w') q = lookup (fs w) q) /\
+    fault w' = None /\ umask w' = umask w.
+Proof. exact Proofs_Whole.patch_applies_end_to_end_index. Qed.
+Print Assumptions patch_applies_end_to_end_index.
+
+(* the usual call: patch -p1 on a diff of da/f against db/f *)
+Theorem patch_p1_applies : forall o f0 fl da db t1 t2 h1 hs tail fname A B w data mode,
+  plain_options o -> reverse_patch_opt o = false -> strip_size o = 1%Z ->
+  format_from_options o = Ok f0 -> f0 = FUnknown \/ f0 = FUnified ->
+  Forall (Filler 1 (empty_patch f0)) fl -> Forall clean fl ->
+  plain_name da -> ~ In 47%N da -> ~ In 10%N da -> plain_name db -> ~ In 47%N db -> ~ In 10%N db ->
+  plain_name fname -> ~ In 47%N fname ->
+  clean (fname ++ tab_time t1) -> clean (fname ++ tab_time t2) ->
+  Forall wf_hunk (h1 :: hs) -> Conforming A B (h1 :: hs) ->
+  remove_empty_files o <> OBYes \/ lines_bytes (newline_output o) B <> [] ->
+  (Z.of_nat (length A) < MAXZ)%Z ->
+  tail_ok tail -> ends_here o f0 (after tail) = true ->
+  fault w = None -> lookup (fs w) fname = Some (Reg data mode) -> (mode < 4096)%N -> owner_r mode = true -> owner_w mode = true ->
+  split_lines data = A ->
+  exists w',
+    process_patch o (join_lines (fl ++ [bs "--- " ++ (da ++ 47%N :: fname) ++ tab_time t1; bs "+++ " ++ (db ++ 47%N :: fname) ++ tab_time t2]) ++
+                     emit_hunks (h1 :: hs) ++ tail) w = (Ok (0, []), w') /\
+    lookup (fs w') fname = Some (Reg (lines_bytes (newline_output o) B) mode) /\
+    (forall q, q <> fname -> lookup (fs w') q = lookup (fs w) q) /\
+    fault w' = None /\ umask w' = umask w.
+Proof. exact Proofs_Whole.patch_p1_applies. Qed.
+Print Assumptions patch_p1_applies.
+
+(* the whole program (run_patch): the patch on standard input ... *)
+Theorem run_patch_end_to_end : forall o f0 fl oldname t1 newname t2 h1 hs tail fname A B w data mode,
+  (patch_file_path o = [] \/ patch_file_path o = bs "-") ->
+  plain_options o -> reverse_patch_opt o = false ->
+  format_from_options o = Ok f0 -> f0 = FUnknown \/ f0 = FUnified ->
+  Forall (Filler (strip_size o) (empty_patch f0)) fl -> Forall clean fl ->
+  plain_name oldname -> plain_name newname -> clean (oldname ++ tab_time t1) -> clean (newname ++ tab_time t2) ->
+  stripped oldname (strip_size o) = fname -> stripped newname (strip_size o) = fname ->
+  fname <> [] /\ ~ In 47%N fname ->
+  Forall wf_hunk (h1 :: hs) -> Conforming A B (h1 :: hs) ->
+  remove_empty_files o <> OBYes \/ lines_bytes (newline_output o) B <> [] ->
+  (Z.of_nat (length A) < MAXZ)%Z ->
+  tail_ok tail -> ends_here o f0 (after tail) = true ->
+  fault w = None -> lookup (fs w) fname = Some (Reg data mode) -> (mode < 4096)%N -> owner_r mode = true -> owner_w mode = true ->
+  split_lines data = A ->
+  exists w',
+    run_patch o (join_lines (fl ++ [bs "--- " ++ oldname ++ tab_time t1; bs "+++ " ++ newname ++ tab_time t2]) ++
+                 emit_hunks (h1 :: hs) ++ tail) w = mkRR 0 [] w' /\
+    lookup (fs w') fname = Some (Reg (lines_bytes (newline_output o) B) mode) /\
+    (forall q, q <> fname -> lookup (fs w') q = lookup (fs w) q).
+Proof. exact Proofs_Whole.run_patch_end_to_end. Qed.
+Print Assumptions run_patch_end_to_end.
+
+(* ... or in a file named with -i *)
+Theorem run_patch_file_end_to_end : forall o f0 fl oldname t1 newname t2 h1 hs tail fname A B w data mode pf pm stdin,
+  patch_file_path o = pf -> pf <> [] -> pf <> bs "-" -> ~ In 47%N pf -> pf <> fname ->
+  lookup (fs w) pf = Some (Reg (join_lines (fl ++ [bs "--- " ++ oldname ++ tab_time t1; bs "+++ " ++ newname ++ tab_time t2]) ++
+                                emit_hunks (h1 :: hs) ++ tail) pm) -> owner_r pm = true ->
+  plain_options o -> reverse_patch_opt o = false ->
+  format_from_options o = Ok f0 -> f0 = FUnknown \/ f0 = FUnified ->
+  Forall (Filler (strip_size o) (empty_patch f0)) fl -> Forall clean fl ->
+  plain_name oldname -> plain_name newname -> clean (oldname ++ tab_time t1) -> clean (newname ++ tab_time t2) ->
+  stripped oldname (strip_size o) = fname -> stripped newname (strip_size o) = fname ->
+  fname <> [] /\ ~ In 47%N fname ->
+  Forall wf_hunk (h1 :: hs) -> Conforming A B (h1 :: hs) ->
+  remove_empty_files o <> OBYes \/ lines_bytes (newline_output o) B <> [] ->
+  (Z.of_nat (length A) < MAXZ)%Z ->
+  tail_ok tail -> ends_here o f0 (after tail) = true ->
+  fault w = None -> lookup (fs w) fname = Some (Reg data mode) -> (mode < 4096)%N -> owner_r mode = true -> owner_w mode = true ->
+  split_lines data = A ->
+  exists w',
+    run_patch o stdin w = mkRR 0 [] w' /\
+    lookup (fs w') fname = Some (Reg (lines_bytes (newline_output o) B) mode) /\
+    (forall q, q <> fname -> lookup (fs w') q = lookup (fs w) q).
+Proof. exact Proofs_Whole.run_patch_file_end_to_end. Qed.
+Print Assumptions run_patch_file_end_to_end.
+
+(* (4a) a patch over several files (diff -ru, svn diff): every section leaves its new version, nothing else changes.
+   u_ok o f0 s collects, for the section s, the hypotheses of patch_applies_end_to_end on its header, names and hunks (with any
+   lines in front of "--- " / "+++ " that lead the scan to a record u_p0 s: text, an Index line), plus first_ok s: its first
+   line is neither a range line nor a "\" marker (so that the section before it ends there).  u_there w s: the file of s
+   is a regular readable writable file of w holding u_A s. *)
+Theorem sections_apply : forall o f0,
+  plain_options o -> reverse_patch_opt o = false -> format_from_options o = Ok f0 ->
+  forall ss tail w,
+  ss <> [] -> Forall (u_ok o f0) ss -> NoDup (map u_name ss) ->
+  tail_ok tail -> ends_here o f0 (after tail) = true ->
+  fault w = None -> (forall s, In s ss -> u_there w s) ->
+  exists w',
+    process_patch o (texts ss ++ tail) w = (Ok (0, []), w') /\
+    (forall s data mode, In s ss -> lookup (fs w) (u_name s) = Some (Reg data mode) ->
+                         lookup (fs w') (u_name s) = Some (Reg (lines_bytes (newline_output o) (u_B s)) mode)) /\
+    (forall q, ~ In q (map u_name ss) -> lookup (fs w') q = lookup (fs w) q) /\
+    fault w' = None /\ umask w' = umask w.
+Proof. exact Proofs_WholeSections.sections_apply. Qed.
+Print Assumptions sections_apply.
+
+(* (4b) a section written by git diff: the write is deferred to the end of the run; same result *)
+Theorem git_patch_applies : forall o f0 fl ga gb ix oldname t1 newname t2 h1 hs tail fname A B w data mode,
+  plain_options o -> reverse_patch_opt o = false ->
+  format_from_options o = Ok f0 -> f0 = FUnknown \/ f0 = FUnified ->
+  Forall (Filler (strip_size o) (empty_patch f0)) fl -> Forall clean fl ->
+  ~ In 32%N ga -> hd 0%N ga <> 34%N -> clean (bs "diff --git " ++ ga ++ bs " b/" ++ gb) -> clean (bs "index " ++ ix) ->
+  plain_name oldname -> plain_name newname -> clean (oldname ++ tab_time t1) -> clean (newname ++ tab_time t2) ->
+  stripped oldname (strip_size o) = fname -> stripped newname (strip_size o) = fname ->
+  fname <> [] /\ ~ In 47%N fname ->
+  Forall wf_hunk (h1 :: hs) -> Conforming A B (h1 :: hs) ->
+  rstart (oldr h1) <> 0%Z /\ rstart (newr h1) <> 0%Z ->
+  remove_empty_files o <> OBYes \/ lines_bytes (newline_output o) B <> [] ->
+  (Z.of_nat (length A) < MAXZ)%Z ->
+  tail_ok tail -> ends_here o f0 (after tail) = true ->
+  fault w = None -> lookup (fs w) fname = Some (Reg data mode) -> (mode < 4096)%N -> owner_r mode = true -> owner_w mode = true ->
+  split_lines data = A ->
+  exists w',
+    process_patch o (join_lines (fl ++ [bs "diff --git " ++ ga ++ bs " b/" ++ gb; bs "index " ++ ix;
+                                        bs "--- " ++ oldname ++ tab_time t1; bs "+++ " ++ newname ++ tab_time t2]) ++
+                     emit_hunks (h1 :: hs) ++ tail) w = (Ok (0, []), w') /\
+    lookup (fs w') fname = Some (Reg (lines_bytes (newline_output o) B) mode) /\
+    (forall q, q <> fname -> lookup (fs w') q = lookup (fs w) q) /\
+    fault w' = None /\ umask w' = umask w.
+Proof. exact Proofs_WholeGit.git_patch_applies. Qed.
+Print Assumptions git_patch_applies.
+
+(* when the first hunk has a line on each side, neither range starts at 0 (hypothesis of git_patch_applies) *)
+Theorem conforming_starts : forall A B h1 hs,
+  Conforming A B (h1 :: hs) -> rcount (oldr h1) <> 0%Z -> rcount (newr h1) <> 0%Z ->
+  rstart (oldr h1) <> 0%Z /\ rstart (newr h1) <> 0%Z.
+Proof. exact Proofs_Whole.conforming_starts. Qed.
+
+(* (3) non-vacuity: the instances are Proofs_Whole.patch_applies_end_to_end_nonvacuous (diff -u output with time stamps, -p1),
+   run_patch_same, patch_applies_index_nonvacuous (svn style, mail around it, -p0 -i file), run_patch_file_same,
+   Proofs_WholeSections.sections_apply_nonvacuous (diff -ru over two files), Proofs_WholeGit.git_patch_applies_nonvacuous. *)
+Check Proofs_Whole.patch_applies_end_to_end_nonvacuous.
+Check Proofs_Whole.run_patch_same.
+Check Proofs_Whole.patch_applies_index_nonvacuous.
+Check Proofs_Whole.run_patch_file_same.
+Check Proofs_WholeSections.sections_apply_nonvacuous.
+Check Proofs_WholeGit.git_patch_applies_nonvacuous.
+Check Proofs_Whole.top_insertion_end_to_end.
+Check Proofs_Whole.first_line_removal_end_to_end.
